@@ -239,6 +239,41 @@ func scanNTTSched(c *core.Ctx) []ob {
 				}
 			}
 			wg.Wait()
+			// a candidate that one of the other candidates calls and that does strictly less than its caller (a first
+			// layer, a fold step with the signature of a transform) is a part of an implementation, not one
+			part := make([]bool, len(impls))
+			for ci, cfn := range impls {
+				called := map[*types.Func]bool{}
+				for _, g := range callees(cfn) {
+					called[g] = true
+				}
+				for di, dfn := range impls {
+					if di == ci || !called[dfn] {
+						continue
+					}
+					less, cmp := true, 0
+					for logN := 3; logN <= maxLogN; logN++ {
+						rc, rd := runs[ci][logN], runs[di][logN]
+						if !rc.complete || !rd.complete {
+							continue
+						}
+						cmp++
+						nc, nd := 0, 0
+						for _, h := range rc.hist {
+							nc += len(h)
+						}
+						for _, h := range rd.hist {
+							nd += len(h)
+						}
+						if nd >= nc {
+							less = false
+						}
+					}
+					if cmp > 0 && less {
+						part[di] = true
+					}
+				}
+			}
 			var bad, inc []string
 			var badPos token.Pos
 			pairs := 0
@@ -248,6 +283,9 @@ func scanNTTSched(c *core.Ctx) []ob {
 			for logN := 3; logN <= maxLogN; logN++ {
 				ref := -1
 				for i := range impls {
+					if part[i] {
+						continue
+					}
 					r := runs[i][logN]
 					for _, p := range r.probs {
 						if len(inc) < 4 {
